@@ -36,9 +36,11 @@ type Event struct {
 	Timers string `json:"timers,omitempty"` // right | flipped
 	Key    string `json:"key,omitempty"`    // right | wrong
 	Time   string `json:"time"`             // now | fudge-1 | fudge | fudge+1 | far
+	FarS   int64  `json:"far_s,omitempty"`  // far: seconds beyond the signing time
 }
 
 type Exch struct {
+	Xfr    bool       `json:"xfr,omitempty"` // an AXFR request answered with Transfer.Out (two envelopes) on the same stream; the next exchange continues on it
 	Signed bool       `json:"signed"`
 	Reuse  bool       `json:"reuse_conn,omitempty"` // keep using the previous dns.Conn
 	Recipe gen.Recipe `json:"recipe"`
@@ -101,6 +103,12 @@ func Gen(seed uint64, tier string) any {
 			e.Recipe.EDNS = 0
 			e.Recipe.QName = fmt.Sprintf("x%d.session.test.", i)
 			e.Recipe.ID = uint16(300 + i)
+			if core.Chance(r, 20) {
+				e.Xfr = true
+			}
+			if i > 0 && sc.Exch[i-1].Xfr {
+				e.Reuse = true // carry on where the transfer left the stream
+			}
 			sc.Exch = append(sc.Exch, e)
 		}
 		if core.Chance(r, 55) {
@@ -121,7 +129,7 @@ func Gen(seed uint64, tier string) any {
 		}
 		return sc
 	}
-	sc.SkewS = core.Pick(r, 0, 0, 0, -1, 1, sc.Fudge-1, sc.Fudge, sc.Fudge+1, -sc.Fudge, -sc.Fudge-1)
+	sc.SkewS = core.Pick(r, 0, 0, 0, -1, 1, sc.Fudge-1, sc.Fudge, sc.Fudge+1, -sc.Fudge, -sc.Fudge-1, 65536, 65536+sc.Fudge, 65536-sc.Fudge, 1<<24)
 	n := 1 + r.IntN(4)
 	if tier == "thorough" {
 		n = 1 + r.IntN(8)
@@ -155,6 +163,14 @@ func Gen(seed uint64, tier string) any {
 			ev.Key = "wrong"
 		default:
 			ev.Time = core.Pick(r, "fudge-1", "fudge", "fudge+1", "far")
+			if ev.Time == "far" {
+				// distances at which truncated or modular arithmetic would fold back into the window
+				base := core.Pick(r, int64(86400), 65536, 65536, 131072, 1<<24, 1<<32, 1<<32)
+				ev.FarS = base + int64(r.IntN(2*sc.Fudge+3)) - int64(sc.Fudge) - 1
+				if ev.FarS <= int64(sc.Fudge) {
+					ev.FarS = int64(sc.Fudge) + 1 + int64(r.IntN(1000))
+				}
+			}
 		}
 		sc.Events = append(sc.Events, ev)
 	}
@@ -374,7 +390,10 @@ func runBare(sc *Scenario, res *core.Result, verbose bool) {
 		case "fudge+1":
 			at = signT + int64(sc.Fudge) + 1
 		case "far":
-			at = signT + int64(sc.Fudge) + 86400
+			at = signT + ev.FarS
+			if ev.FarS == 0 {
+				at = signT + int64(sc.Fudge) + 86400
+			}
 		}
 		plan = append(plan, planned{ev, at})
 	}
@@ -570,6 +589,18 @@ func (s *sess) ServeDNS(w dns.ResponseWriter, r *dns.Msg) {
 	s.srvSeen = append(s.srvSeen, srvSeen{id: r.Id, status: common.ErrStr(st), hasSig: r.IsTsig() != nil, t: time.Now()})
 	s.k.EffectLocked("srv " + strconv.Itoa(int(r.Id)) + " " + common.ErrStr(st))
 	s.k.Unlock()
+	if len(r.Question) == 1 && r.Question[0].Qtype == dns.TypeAXFR {
+		// a zone transfer on this connection: Transfer.Out switches the writer to timers-only signing
+		z := r.Question[0].Name
+		soa := &dns.SOA{Hdr: dns.RR_Header{Name: z, Rrtype: dns.TypeSOA, Class: dns.ClassINET, Ttl: 60}, Ns: "ns." + z, Mbox: "h." + z, Serial: 7, Refresh: 1, Retry: 1, Expire: 1, Minttl: 1}
+		a := &dns.A{Hdr: dns.RR_Header{Name: "a." + z, Rrtype: dns.TypeA, Class: dns.ClassINET, Ttl: 60}, A: []byte{192, 0, 2, 1}}
+		ch := make(chan *dns.Envelope, 2)
+		ch <- &dns.Envelope{RR: []dns.RR{soa, a}}
+		ch <- &dns.Envelope{RR: []dns.RR{a, soa}}
+		close(ch)
+		new(dns.Transfer).Out(w, r, ch)
+		return
+	}
 	m := new(dns.Msg)
 	m.SetReply(r)
 	if ts := r.IsTsig(); ts != nil && st == nil {
@@ -616,12 +647,42 @@ func (c *sessClient) RunEvent(time.Time) {
 				co.Close()
 			}
 			dial()
+		} else if i > 0 && sc.Exch[i-1].Xfr {
+			co = &dns.Conn{Conn: co.Conn} // same stream, fresh client-side TSIG state
 		}
 		m := e.Recipe.Build()
+		if e.Xfr {
+			m = new(dns.Msg)
+			m.SetAxfr("xfr.session.test.")
+			m.Id = e.Recipe.ID
+		}
 		if e.Signed {
 			m.SetTsig(keyName, sc.Alg, uint16(sc.Fudge), time.Now().Unix()+int64(sc.SkewS))
 		}
 		cl := &dns.Client{Net: "tcp", Timeout: time.Duration(maxDelay+30) * time.Second, TsigSecret: map[string]string{keyName: secretGood}}
+		if e.Xfr {
+			// send the request, then take the two envelopes off the stream undecoded
+			// (the oracle judges them from the middlebox's record)
+			co.TsigSecret = cl.TsigSecret
+			co.SetDeadline(time.Now().Add(cl.Timeout))
+			werr := co.WriteMsg(m)
+			n := 0
+			for ; werr == nil && n < 2; n++ {
+				if _, rerr := co.ReadMsgHeader(nil); rerr != nil {
+					werr = rerr
+					break
+				}
+			}
+			reads += n
+			k.Lock()
+			k.EffectLocked("cli xfr " + strconv.Itoa(n))
+			k.Unlock()
+			if werr != nil {
+				co.Close()
+				co = nil
+			}
+			continue
+		}
 		r, _, err := cl.ExchangeWithConn(m, co)
 		cs := cliSeen{conn: len(s.relays) - 1, frame: reads, id: m.Id, err: common.ErrStr(err), got: r != nil, t: time.Now()}
 		if r != nil {
@@ -796,6 +857,75 @@ func (s *sess) judge() {
 				res.Bump("oracle.V1_invalid_rejected")
 				if seen.status == "" {
 					res.Fail("V1", "server-invalid-accepted:"+strings.ReplaceAll(v.Reason, " ", "-"), "the server reported a nil TsigStatus for a request (id %d) that is not RFC 8945-valid: %s", id, v.Reason)
+					return
+				}
+			}
+		}
+	}
+	// G3: what the server's session state makes it write. For a request it
+	// verified, every signed reply must be RFC 8945-valid for the MAC of that
+	// request (first message) or of its previous envelope, timers-only from the
+	// second envelope of a transfer on.
+	if len(srvSecrets) > 0 {
+		for _, r := range s.relays {
+			reqByID := map[uint16][]byte{}
+			ambiguous := false
+			for _, f := range r.Out["c2s"] {
+				if len(f) >= 12 {
+					id := uint16(f[0])<<8 | uint16(f[1])
+					if _, dup := reqByID[id]; dup {
+						ambiguous = true // duplicated request or an ID rewritten in flight: replies cannot be attributed by ID
+					}
+					reqByID[id] = f
+				}
+			}
+			if ambiguous {
+				continue
+			}
+			prev := map[uint16][]byte{} // id -> MAC of the previous envelope of a transfer
+			nth := map[uint16]int{}     // id -> envelopes seen (every transfer of these sessions has two)
+			for _, f := range r.In["s2c"] {
+				if len(f) < 12 {
+					continue
+				}
+				id := uint16(f[0])<<8 | uint16(f[1])
+				ts, _, has := oracle.FindTSIG(f)
+				req := reqByID[id]
+				if !has || req == nil {
+					continue
+				}
+				rt, _, rhas := oracle.FindTSIG(req)
+				if !rhas {
+					continue
+				}
+				accepted := false
+				for _, sv := range s.srvSeen {
+					if sv.id == id && sv.status == "" && sv.hasSig {
+						accepted = true
+					}
+				}
+				if !accepted {
+					continue
+				}
+				isXfr := false
+				if lay, err := oracle.Parse(req); err == nil && len(lay.Questions) == 1 && lay.Questions[0].Type == 252 {
+					isXfr = true
+				}
+				prior, timers := rt.MAC, false
+				if p, ok := prev[id]; ok && isXfr && nth[id]%2 == 1 {
+					prior, timers = p, true
+				}
+				nth[id]++
+				v := oracle.VerifyTSIG(f, srvSecrets, prior, timers, ts.Time)
+				if isXfr {
+					prev[id] = ts.MAC
+				}
+				if !v.Judgable {
+					continue
+				}
+				res.Bump("oracle.G3_server_session_output")
+				if !v.Valid {
+					res.Fail("G3", "server-session-output-invalid", "the server verified request id %d and signed a reply that is not RFC 8945-valid for that request's MAC with timers-only=%v (%s): its per-connection TSIG state is wrong", id, timers, v.Reason)
 					return
 				}
 			}
